@@ -15,6 +15,7 @@ let parse_tasks body =
   let ts = List.map String.trim ts in
   (* a trailing empty field after the last ';' is not a task; an empty field in the middle is *)
   let ts = match List.rev ts with "" :: r -> List.rev r | _ -> ts in
+  let ts = List.filter (fun t -> t <> "!") ts in   (* wait points of the inserting thread: not tasks *)
   List.map (fun t ->
     let t = if String.length t > 0 && t.[0] = '>' then String.sub t 1 (String.length t - 1) else t in
     List.filter_map (fun a ->
